@@ -5,6 +5,7 @@ package main
 import (
 	"fmt"
 	"os"
+	"os/exec"
 	"path/filepath"
 	"sort"
 	"strings"
@@ -18,6 +19,7 @@ import (
 //	fresh A/B/C   three fresh processes in three fresh directories (Go randomises map iteration per process)
 //	cwd-dot       the process runs inside the directory, path "."
 //	cwd-rel       relative path with a trailing slash from another working directory
+//	other-environment  HOME, USER, locale, TZ, TMPDIR, GOMAXPROCS, unrelated variables changed (Go's own caches pinned)
 //	again         a second run over the directory that already holds the output of the same specification
 //	stale         a run over a directory holding the generated files of a DIFFERENT grammar and package name
 //	renamed       first run with the user's sources in package `oldpkg`, then the sources are renamed to
@@ -155,6 +157,21 @@ type detSpec struct {
 	runs  []*detRun
 	base  *detRun
 	stale map[string]string
+}
+
+var goEnvCache sync.Map
+
+// goEnvValue: `go env NAME` of the harness process (so that a changed HOME does not move the module or build cache).
+func goEnvValue(name string) string {
+	if v, ok := goEnvCache.Load(name); ok {
+		return v.(string)
+	}
+	cmd := exec.Command("go", "env", name)
+	cmd.Env = append(os.Environ(), goEnv...)
+	out, _ := cmd.Output()
+	v := strings.TrimSpace(string(out))
+	goEnvCache.Store(name, v)
+	return v
 }
 
 func parallel(n int, jobs []func()) {
@@ -355,6 +372,18 @@ func init() {
 				ds.c.write(d.dir)
 				os.MkdirAll(filepath.Join(root, "elsewhere", "deeper"), 0o755)
 				d.res = runCLI(bin, []string{"--report", "../../" + filepath.Base(d.dir) + "/"}, filepath.Join(root, "elsewhere", "deeper"), tmo)
+				d.collect()
+				add(ds, d)
+			})
+			jobs = append(jobs, func() {
+				// another environment: home, user, locale, time zone, temp dir, scheduler width, an unrelated variable
+				d := &detRun{scenario: "other-environment", dir: name("v")}
+				ds.c.write(d.dir)
+				home := name("v-home")
+				os.MkdirAll(filepath.Join(home, "tmp"), 0o755)
+				d.res = runCLIEnv(bin, []string{"--report", d.dir}, root, tmo, []string{"HOME=" + home, "USER=someone-else", "LOGNAME=someone-else",
+					"LANG=tr_TR.UTF-8", "LC_ALL=tr_TR.UTF-8", "TZ=UTC-14", "TMPDIR=" + filepath.Join(home, "tmp"), "GOMAXPROCS=1",
+					"GOPATH=" + goEnvValue("GOPATH"), "GOMODCACHE=" + goEnvValue("GOMODCACHE"), "GOCACHE=" + goEnvValue("GOCACHE"), "LOX_DEBUG=1", "SOURCE_DATE_EPOCH=86400", "HOSTNAME=elsewhere", "COLUMNS=40", "NO_COLOR=1"})
 				d.collect()
 				add(ds, d)
 			})
